@@ -400,6 +400,23 @@ class Extracted:
                     nm = al.asname or al.name
                     if nm in _global_names(code) and nm not in env and hasattr(pure[st.module], al.name):
                         env[nm] = getattr(pure[st.module], al.name)
+        # module-level constants of the real module (loggers, sentinels, lookup tables) that a refactoring started to use
+        try:
+            import importlib
+
+            modname = "uberjob." + self.relpath[:-3].replace("/", ".")
+            if modname.endswith(".__init__"):
+                modname = modname[: -len(".__init__")]
+            realmod = importlib.import_module(modname)
+            import types as _types
+
+            for nm in _global_names(code):
+                if nm not in env and not hasattr(builtins, nm) and hasattr(realmod, nm):
+                    v = getattr(realmod, nm)
+                    if not callable(v) and not isinstance(v, _types.ModuleType):
+                        env[nm] = v
+        except Exception:  # noqa: BLE001  (the real module may not import under the tooling interpreter: then nothing is supplied)
+            pass
         # sibling closures: other functions nested in the same enclosing function (``outer.<locals>.helper`` next to ``outer.<locals>.f``)
         parts = [p_ for p_ in self.qualname.split(".") if p_ != "<locals>"]
         if len(parts) > 1:
